@@ -184,6 +184,7 @@ func runC04(c *Ctx) {
 	}
 	c.Floor("C04-R2", "database Put calls in waddrmgr", nPut, 25)
 	checkPublicClassPlaintext(c, "C04-R2")
+	checkNoKeyMaterialInNames(c, "C04-R2")
 
 	// ---------- R3 ----------
 	for _, name := range []string{"putAddress", "markAddressUsed"} {
